@@ -401,6 +401,10 @@ func (V *Verifier) verifyFuncMode(fi *FuncInfo, fct *FuncContract, ceUnroll int)
 	}
 	st.lockEntry(fct)
 	fc.entrySnap = st.snapshot(nil)
+	if fc.isRG() {
+		st.rgAssumeInv(bodyPos, "entry")
+		fc.noteAssumption("rely-guarantee mode: the rely relations of this function are reflexive and transitive and are implied by the guarantee of every other goroutine's atomic steps (same code, same clauses; argued in DESIGN.md); sync/atomic operations are sequentially consistent atomic steps")
+	}
 	for _, r := range fct.Requires {
 		env := fc.newSpecEnv(st, nil, nil, bodyPos, fc.Name+"/requires")
 		st.addFact(env.evalBool(r.Expr))
@@ -575,6 +579,11 @@ func (V *Verifier) checkExit(fc *FuncCtx, s *State, vals []Val, fi *FuncInfo, is
 			names[sig.Results().At(i).Name()] = v
 		}
 	}
+	// (the 'end' anchor sees the results, but parameters and locals with their current values)
+	fc.endNames = map[string]Val{}
+	for k, v := range names {
+		fc.endNames[k] = v
+	}
 	// parameters in postconditions denote their entry values (Go passes by value)
 	for obj, v := range fc.entrySnap.vars {
 		if _, shadow := names[obj.Name()]; !shadow {
@@ -584,6 +593,7 @@ func (V *Verifier) checkExit(fc *FuncCtx, s *State, vals []Val, fi *FuncInfo, is
 		}
 	}
 	s.runAnchor("end", endPos)
+	fc.endNames = nil
 	if fct.NoAlloc {
 		s.oblige("post", "noalloc", sEq(s.alloc, fc.entryAlloc()), endPos)
 	}
@@ -618,6 +628,9 @@ func (V *Verifier) checkExit(fc *FuncCtx, s *State, vals []Val, fi *FuncInfo, is
 	s.checkLockExit(fct, endPos)
 	// frame: everything outside the modifies footprint is unchanged
 	env := fc.newSpecEnv(s, names, fc.entrySnap, fi.Decl.Body.Lbrace+1, fc.Name+"/modifies").inOld()
+	if fc.isRG() {
+		return // shared state changes under interference: frames are expressed by the guarantee clauses instead
+	}
 	fp := s.footprints(env, fct.Modifies)
 	otherGroup := map[string]bool{}
 	if fct.Full != nil {
@@ -764,15 +777,23 @@ func (st *State) runAnchor(anchor string, pos token.Pos) {
 	}
 	a := fc.curContract.Anchors[anchor]
 	if a == nil {
+		if strings.HasPrefix(anchor, "after-call") && fc.isRG() {
+			st.rgCheckStep(anchor, pos)
+		}
 		return
 	}
+	defer func() {
+		if strings.HasPrefix(anchor, "after-call") && fc.isRG() {
+			st.rgCheckStep(anchor, pos)
+		}
+	}()
 	for i, c := range a.Clauses {
 		if !st.clauseInScope(c, pos, anchor) {
 			continue // mentions a local that does not exist on this path (e.g. an early return before its declaration)
 		}
 		switch c.Kind {
 		case "assert":
-			env := fc.newSpecEnv(st, nil, fc.entrySnap, pos, fc.Name+"/at "+anchor)
+			env := fc.newSpecEnv(st, fc.endNames, fc.entrySnap, pos, fc.Name+"/at "+anchor)
 			g := env.evalBool(c.Expr)
 			st.oblige("assert", fmt.Sprintf("%s/%d", anchor, i+1), g, pos)
 			st.assume(g)
@@ -821,8 +842,31 @@ func (st *State) execGhost(c *Clause, pos token.Pos) {
 	if c.Kind != "ghost" {
 		return
 	}
-	env := fc.newSpecEnv(st, nil, fc.entrySnap, pos, fc.Name+"/ghost "+c.Name)
+	env := fc.newSpecEnv(st, fc.endNames, fc.entrySnap, pos, fc.Name+"/ghost "+c.Name)
 	v := env.eval(c.Expr)
+	if len(c.List) == 1 {
+		// ghost obj.field = e
+		base := env.eval(c.List[0].Args[0])
+		if base.K != KInt || base.T == nil {
+			panic(vcErr("ghost field assignment: " + c.Name + " is not a field of a reference"))
+		}
+		_, structT := structOf(base.T)
+		gh := ""
+		if structT != nil {
+			gh = ghostFieldHeap(structT, c.List[0].Text)
+		}
+		if gh == "" {
+			panic(vcErr("ghost field assignment: no ghost field " + c.Name))
+		}
+		val := v.S
+		if v.K == KNil {
+			val = "0"
+		}
+		h := st.heapGet(gh, "(Array Int Int)")
+		st.noteWrite(gh, base.S)
+		st.heapSet(gh, "(Array Int Int)", sStore(h, base.S, val), base.S)
+		return
+	}
 	switch v.K {
 	case KBool:
 		v.S = st.define("ghost_"+c.Name, "Bool", v.S)
